@@ -138,6 +138,9 @@ func FuzzStmt(f *testing.F) {
 		if c.Kind == "soup" && c.Soup != nil && (c.Soup.Mode == "huge" || len(c.Soup.Pre)+len(c.Soup.Unit)*c.Soup.Rep+len(c.Soup.Post) > childThreshold) {
 			return // child-process cases stay in TestProp
 		}
+		// no engine instances here: their background goroutines make coverage non-deterministic, which stalls
+		// the coverage-guided fuzzer in minimisation; the execution relation is exercised by TestProp
+		c.Exec = false
 		res := runCase(c)
 		feats := features(c)
 	next:
